@@ -611,6 +611,73 @@ func (r *Resolver) AutoTA() {
 	zlog.Info("Trust anchors refreshed", "path", filename, "nextrefresh", time.Now().Add(12*time.Hour).UTC().Format(time.UnixDate))
 }
 
+// startupTrustAnchors returns the trust set a freshly constructed resolver
+// starts with, for the window between process start and the first AutoTA run.
+// It is the set AutoTA itself publishes before its fetch: the configured
+// anchors plus the anchors the state file holds as Valid or Missing, minus
+// every key the durable revocation records name. A tombstone, or a
+// StateRevoked/StateRemoved marker still waiting in the state file for its
+// tombstone to land, removes a key by key material; a key that carries the
+// REVOKE bit is never an active anchor; a tombstone store that exists but
+// cannot be read fails closed. Nothing is written.
+//
+// The state file's anchors belong here because the configuration may list
+// nothing but revoked keys (a rollover the operator never copied back): the
+// successor learned through RFC 5011 must then carry the resolver until the
+// first refresh succeeds, as it did before the configured keys were filtered.
+func startupTrustAnchors(directory string, configured []dns.RR) []dns.RR {
+	tombstones, err := readTombstones(filepath.Join(directory, tombstoneFile))
+	if err != nil {
+		zlog.Error("Trust anchor tombstones file unreadable — starting without trust anchors", "error", err.Error())
+		return nil
+	}
+	revoked := make(map[string]struct{}, len(tombstones))
+	for fp := range tombstones {
+		revoked[fp] = struct{}{}
+	}
+	state, stateErr := readFromTAFile(filepath.Join(directory, stateFile))
+	if stateErr != nil {
+		state = nil
+	}
+	for _, ta := range state {
+		if ta != nil && ta.DNSKey != nil && (ta.State == StateRevoked || ta.State == StateRemoved) {
+			revoked[dnskeyMaterialFP(ta.DNSKey)] = struct{}{}
+		}
+	}
+
+	live := make([]dns.RR, 0, len(configured))
+	seen := make(map[string]struct{}, len(configured))
+	for _, rr := range configured {
+		dnskey, ok := rr.(*dns.DNSKEY)
+		if !ok {
+			live = append(live, rr)
+			continue
+		}
+		fp := dnskeyMaterialFP(dnskey)
+		if _, gone := revoked[fp]; gone || dnskey.Flags&DNSKEYFlagRevoke != 0 {
+			zlog.Warn("Configured trust anchor is revoked — not trusting it", "keytag", dnssec.KeyTag(dnskey))
+			continue
+		}
+		seen[fp] = struct{}{}
+		live = append(live, rr)
+	}
+	for _, ta := range state {
+		if ta == nil || ta.DNSKey == nil || (ta.State != StateValid && ta.State != StateMissing) {
+			continue
+		}
+		fp := dnskeyMaterialFP(ta.DNSKey)
+		if _, gone := revoked[fp]; gone || ta.DNSKey.Flags&DNSKEYFlagRevoke != 0 {
+			continue
+		}
+		if _, dup := seen[fp]; dup {
+			continue
+		}
+		seen[fp] = struct{}{}
+		live = append(live, ta.DNSKey)
+	}
+	return live
+}
+
 func autoTARefreshFailureCounter(err error, fallback *metric.Counter) *metric.Counter {
 	switch {
 	case errors.Is(err, middleware.ErrRecursionWorkLimit),
